@@ -59,7 +59,7 @@ PROPS = {
     "C03": P("C03", ["LSProofs.Props.C03"], ["ev", "rc", "handles"],
              [RANDOM_Q, ENUM_Q, fam("ladder", n=300), fam("threads", n=100, scripted=False)],
              [RANDOM_T, ENUM_T, fam("ladder", n=3000), fam("threads", n=1500, scripted=False)], GUARDS, loom=True),
-    "C04": P("C04", ["LSProofs.Props.C04"], None,
+    "C04": P("C04", ["LSProofs.Props.C04", "LSProofs.Props.C04L"], None,
              [fam("threads", n=200, scripted=False)], [fam("threads", n=3000, scripted=False)], ["atomicSites", "callOrder", "atomicOrdCodes"],
              search=[fam("threads", n=2000, scripted=False)], scripted=False, loom=True),
     "C05": P("C05", ["LSProofs.Props.C05"], ["out", "text", "rc", "ev", "handles"],
